@@ -208,6 +208,9 @@ var (
 )
 
 func valType(t int) reflect.Type {
+	if IsSliceT(t) {
+		return reflect.SliceOf(kTypes[t-TSlice])
+	}
 	if IsIface(t) {
 		return iTypes[t-TIface]
 	}
@@ -370,6 +373,23 @@ func (w *World) observeGroup(v reflect.Value) ArgObs {
 	}
 	for i := 0; i < v.Len(); i++ {
 		e := v.Index(i)
+		if e.Kind() == reflect.Slice {
+			// a member that is itself a slice (possibly empty or nil)
+			o.Serials = append(o.Serials, SepSerial)
+			for j := 0; j < e.Len(); j++ {
+				tok, ok := e.Index(j).Interface().(Tok)
+				if !ok || e.Index(j).IsNil() {
+					o.Bad = "element of a slice-typed group member is not a token"
+					continue
+				}
+				eo := w.observeTok(tok)
+				o.Serials = append(o.Serials, eo.Serials...)
+				if eo.Bad != "" {
+					o.Bad = eo.Bad
+				}
+			}
+			continue
+		}
 		if e.IsNil() {
 			o.Serials = append(o.Serials, -1)
 			o.Bad = "nil group element"
@@ -412,6 +432,9 @@ func (w *World) observeParams(ps []Param, vals func(i int) reflect.Value, out []
 func (w *World) mint(fn, exec, leaf, elem int, t int, poison bool, inputs []int64) reflect.Value {
 	s := int64(len(w.Tokens))
 	var p interface{}
+	if IsSliceT(t) {
+		t -= TSlice
+	}
 	if IsIface(t) {
 		// Results are never declared with interface types by the generator;
 		// fall back to a K0 payload.
@@ -473,6 +496,43 @@ func (w *World) buildResult(c *mintCtx, r Result, rt reflect.Type, top bool) ref
 					flatten = f.OptFlatten
 				}
 			}
+		}
+		if IsSliceT(r.T) {
+			// members that are slices: one (plain) or several (flatten), each
+			// with 0-3 elements, the first flatten member always empty / nil
+			one := func(m int) (reflect.Value, []int64) {
+				mt := valType(r.T)
+				n := flattenCount(f.Salt, leaf*7+m+3)
+				if m == 0 && flatten {
+					n = 0
+				}
+				ser := []int64{SepSerial}
+				if n == 0 && mix64(f.Salt, int64(leaf+m))&1 == 0 {
+					return reflect.Zero(mt), ser // nil slice
+				}
+				sl := reflect.MakeSlice(mt, 0, n)
+				for e := 0; e < n; e++ {
+					v := w.mint(f.ID, c.exec, leaf, m*8+e, r.T, c.poison, nil)
+					ser = append(ser, v.Interface().(Tok).Ser())
+					sl = reflect.Append(sl, v)
+				}
+				return sl, ser
+			}
+			if !flatten {
+				v, ser := one(0)
+				c.minted = append(c.minted, ser)
+				return v
+			}
+			n := 1 + flattenCount(f.Salt, leaf)
+			outer := reflect.MakeSlice(rt, 0, n)
+			var all []int64
+			for m := 0; m < n; m++ {
+				v, ser := one(m)
+				outer = reflect.Append(outer, v)
+				all = append(all, ser...)
+			}
+			c.minted = append(c.minted, all)
+			return outer
 		}
 		if rt.Kind() == reflect.Slice {
 			n := flattenCount(f.Salt, leaf)
